@@ -73,8 +73,9 @@ def write (pre : Bytes) (partial_ : Bool) (buf : Bytes) (u : Under) : WriteOut :
     { partial_ := partial', handed := joined, reached := joined.take k,
       n := written pre.length true k ls 0, err := true }
 
-/-- A sequence of Write calls on one writer; stops being interesting after an error but the Go
-writer keeps its state, so we simply continue. Returns everything that reached the underlying
+/-- A sequence of Write calls on one writer, going on after errors: the Go writer keeps the state it
+recorded before calling the underlying writer (that of the END of the argument, whatever part of it
+was taken — see `Props.C20.resume_spec_fails`), and so does this. Returns everything that reached the underlying
 writer, and the per-call results. -/
 def writes (pre : Bytes) : Bool → List (Bytes × Under) → Bytes × List (Int × Bool)
   | _, [] => ([], [])
